@@ -157,7 +157,7 @@ Ltac triv HP r :=
 Lemma winP_apply_cmd r c Wl a : winP r Wl a ->
   winP (fst (apply_cmd imm r c)) (Wl ++ wobs g (snd (apply_cmd imm r c))) (a + hc (snd (apply_cmd imm r c))).
 Proof.
-  intros HP. destruct c as [b|j key|j e|k|k|tg d|tg|n]; cbn [apply_cmd].
+  intros HP. destruct c as [b|j key|j e|k|k|tg d|tg|n|k]; cbn [apply_cmd].
   - destruct (r_outer r); triv HP r.
   - destruct (r_outer r); cbn [fst snd]; [|triv HP r].
     set (r1 := RState (r_live r) (r_timers r) true (r_wsubs r) (r_wterm r) (r_handed r ++ [j]) (r_released r)).
@@ -204,6 +204,7 @@ Proof.
   - destruct (r_released r); triv HP r.
   - destruct (mem tg (r_timers r)); triv HP r.
   - triv HP r.
+  - destruct (r_released r); triv HP r.
 Qed.
 
 Lemma winP_apply_cmds cs : forall r Wl a, winP r Wl a ->
@@ -392,7 +393,7 @@ Qed.
 Lemma apply_cmd_outer (r : rstate W) (c : cmd W B) :
   r_outer (fst (apply_cmd imm r c)) = r_outer r /\ Forall nonterm (oview (snd (apply_cmd imm r c))).
 Proof.
-  destruct c as [b|j key|j e|k|k|tg d|tg|n]; cbn [apply_cmd].
+  destruct c as [b|j key|j e|k|k|tg d|tg|n|k]; cbn [apply_cmd].
   - destruct (r_outer r) eqn:E; cbn [fst snd oview flat_map oview1 app]; split; auto. repeat constructor.
   - destruct (r_outer r) eqn:E; cbn [fst snd]; [|split; [auto|constructor]].
     destruct (imm j).
@@ -416,6 +417,7 @@ Proof.
   - destruct (r_released r); cbn [fst snd r_outer]; split; auto; constructor.
   - destruct (mem tg (r_timers r)); cbn [fst snd r_outer]; split; auto; constructor.
   - cbn [fst snd]. split; auto. constructor.
+  - destruct (r_released r); cbn [fst snd r_outer]; split; auto; constructor.
 Qed.
 
 Lemma apply_cmds_outer (cs : list (cmd W B)) : forall r : rstate W,
